@@ -58,3 +58,54 @@ void h_cur_any_enqueued(void) { MK_CUR(p); cv_i1 r = cur_any_enqueued(); if (CUR
 #ifdef CV_HAS_cur_await_ready
 void h_cur_await_ready(void) { MK_CUR(p); cv_i1 r = cur_await_ready(); if (CUR == 0) SENT("current_awaiter::await_ready on a non-pool thread"); else if (r) SENT("current_awaiter::await_ready: pool stopped"); else SENT("current_awaiter::await_ready: must hop"); }
 #endif
+#ifdef CV_HAS_rs_resume_sp
+void h_resume_sp_fwd(void) { TP *p; SP *sp; rs_resume_sp(p, sp);
+  if (RS_N0 == 0) SENT("resume(suspend_point): empty suspend point");
+  if (RS_N0 > 3 && rs.trk_accepted == 1) SENT("resume(suspend_point): heap representation, tracked closure accepted");
+  if (RS_N0 >= 1 && RS_N0 <= 3 && rs.trk_unrun == 1) SENT("resume(suspend_point): inline representation, tracked closure rejected and destroyed un-run"); }
+#endif
+#ifdef CV_HAS_tp_ctor
+void h_ctor(void) { TP *p = malloc(sizeof(TP)); __CPROVER_assume(p != 0); gh_pool = p;
+  cv_i64 in_cap = nondet_size_t(); __CPROVER_assume(in_cap >= 1 && in_cap <= (1ul << 20) + 1); tv_cap = in_cap;
+  gh_tv = malloc(in_cap * sizeof(THR)); __CPROVER_assume(gh_tv != 0);
+  cv_i32 in_threads = nondet_unsigned();
+  tp_ctor(p, in_threads);
+  if (in_threads == 0 && gh_hw == 0) SENT("thread_pool(): hardware_concurrency() unknown (0): a pool without any worker");
+  if (in_threads == 0 && gh_hw > 1) SENT("thread_pool(): one worker per core");
+  if (in_threads == 3) SENT("thread_pool(3)"); }
+#endif
+#ifdef CV_HAS_thread_body
+void h_thread_body(void) { LAMCTOR *l; thread_body(l); SENT("worker thread body"); }
+#endif
+#ifdef CV_HAS_ea_perform_resume
+void h_pool_await_fwd(void) { SP *r; AWT *a; cv_i8 *u; ea_perform_resume(r, a, u); SENT("enqueue_awaiter::perform_resume"); }
+#endif
+
+/* ---- L: exactly-once lemma over the CONTRACTS (unbounded number of steps, loop contract) -------------------------------------------------------
+ * The tracked-closure clauses of the enforced contracts are the transitions of a small system; any number of them, in any order, by any threads:
+ *   submit   (enqueue, unit `enqueue`)  : pool not stopped at the lock instant -> the closure is QUEUED; stopped -> rejected, left to its owner, who
+ *                                         destroys it un-run (closure-level units: that IS the observable cancellation, where the closure type has one)
+ *   serve    (worker iteration, `worker`): a QUEUED closure taken by a worker is invoked exactly once and disposed of; a worker never serves a stopped pool
+ *   stop     (`stop`)                   : exit flag set for good; a QUEUED closure is swapped out and destroyed un-run exactly once
+ * Claim: a submitted closure is never run twice, never run AND cancelled, and - once the pool has been stopped - never left behind. */
+#ifdef C11_LEMMA_EXACTLY_ONCE
+enum { L_ARG, L_QUEUED, L_GONE };
+void h_lemma_exactly_once(void) {
+  int where = L_ARG; unsigned invoked = 0, unrun = 0; int stopped = 0;
+  while (nondet_bool())
+  __CPROVER_assigns(where, invoked, unrun, stopped)
+  __CPROVER_loop_invariant(invoked + unrun <= 1 && invoked <= 1 && unrun <= 1 && (where == L_ARG || where == L_QUEUED || where == L_GONE) && stopped <= 1 && stopped >= 0)
+  __CPROVER_loop_invariant((where == L_GONE) == (invoked + unrun == 1))
+  __CPROVER_loop_invariant(where == L_QUEUED ==> stopped == 0)
+  {
+    unsigned op = nondet_unsigned() % 3;
+    if (op == 0 && where == L_ARG) { if (!stopped) where = L_QUEUED; else { unrun++; where = L_GONE; } }
+    else if (op == 1 && where == L_QUEUED && !stopped) { invoked++; where = L_GONE; }
+    else if (op == 2) { stopped = 1; if (where == L_QUEUED) { unrun++; where = L_GONE; } }
+  }
+  __CPROVER_assert(invoked <= 1, "lemma: a closure is never executed twice");
+  __CPROVER_assert(invoked + unrun <= 1, "lemma: a closure is never both executed and cancelled, never cancelled twice");
+  __CPROVER_assert((stopped && where != L_ARG) ==> (invoked + unrun == 1), "lemma: once the pool is stopped no submitted closure is left behind (executed once or cancelled once)");
+  if (invoked) SENT("lemma: closure executed"); else if (unrun && stopped) SENT("lemma: closure cancelled"); else SENT("lemma: closure still queued / not yet submitted");
+}
+#endif
